@@ -451,6 +451,9 @@ class Component(CaselessDict):
             # we are adding properties to the current top of the stack
             else:
                 factory = types_factory.for_property(name)
+                if factory in (vText, types_factory['categories']):
+                    # the TEXT decoder must see the value with its escapes
+                    vals = line.parts(text=True)[2]
                 component = stack[-1] if stack else None
                 if not component:
                     # only accept X-COMMENT at the end of the .ics file
